@@ -35,7 +35,15 @@ ASSUMPTIONS = ['exact arithmetic (rounding not decided)',
 
 
 def jobs(tier):
-    out = [(c, tier) for c in MESH_CLASSES]
+    from ..model import DIM as _D
+    out = []
+    for c in MESH_CLASSES:
+        if _D[c] == 3:
+            # split the expensive 3-D classes by rule so that the pool is balanced
+            for grp in (('E1',), ('E2',), ('E3',), ('E3u',), ('E4', 'E5')):
+                out.append((c, tier, None, grp))
+        else:
+            out.append((c, tier))
     if tier == 'quick':
         from ..model import DIM
         for c in MESH_CLASSES:
@@ -98,6 +106,7 @@ def zero_excluding_ties(r: Rat, tie_head):
 def job(args):
     cls, tier = args[0], args[1]
     sizes = args[2] if len(args) > 2 else None
+    only = set(args[3]) if len(args) > 3 and args[3] else None
     sm = SourceModel()
     w = World(sm, cls, sizes=sizes)
     obs, samples, units = [], [], set()
@@ -119,6 +128,8 @@ def job(args):
         ('E3u', 'advection', 'convectionUpwindTerm', (u, uu), lambda: w.call('calculus', 'divergenceTerm', _mul(w, u, w.call('averaging', 'upwindMean', phi, uu))), 'uu'),
     ]
     for rule, module, disp, cargs, chain, tie in chains:
+        if only and rule not in only:
+            continue
         impl, proj, call, line = F.implementer(sm, module, disp, cls)
         fi = sm.func(module, impl)
         units.add(f"{module}.{impl}")
@@ -145,6 +156,8 @@ def job(args):
         units.add('calculus.' + nm)
     for nm in ('linearMean', 'upwindMean'):
         units.add('averaging.' + nm)
+    if only and not ({'E4', 'E5'} & only):
+        return dict(obs=obs, units=sorted(units), samples=samples, funcs=sorted(w.interp.funcs_seen))
     # ---- E4
     impl, proj, call, line = F.implementer(sm, 'advection', 'convectionTVDupwindRHSTerm', cls)
     fi = sm.func('advection', impl)
